@@ -280,3 +280,66 @@ def _rename(e, sv):
         if n.get("k") == "Path" and n.get("res_kind") == "Local" and n.get("res") == sv:
             n["res"] = "mul"
     return e2
+
+
+@rule("C17", "C17.i.lui-operand-fits-the-shift", floor=1)
+def c17i(F, R):
+    """`lui`/`auipc` place their operand in the upper 20 bits by shifting it left by 12: before the shift the operand is tested against a range of at most 20 bits and rejected otherwise - an unchecked shift silently drops the high bits (`lui a0, 0x100000` would be read as 0)"""
+    p = [q for q in F.fns if q.endswith("for riscv_analysis::parser::node::ParserNode>::try_from") and "Peekable" in q]
+    if not p:
+        raise Anchor("decoder ParserNode::try_from not found")
+    f = F.fn(p[0])
+    from .p_parse import parent_map
+    body = f["hir"]["value"]
+    pm = parent_map(body)
+    shifts = [b for b in walk(body, pats=False) if (b.get("k") == "Binary" and b["op"] == "Shl" and isinstance(lit_value(b["b"]), int))
+              or (b.get("k") == "MethodCall" and b["name"] in ("wrapping_shl", "checked_shl", "overflowing_shl", "unbounded_shl") and b["args"] and isinstance(lit_value(b["args"][0]), int))]
+    if not shifts:
+        R.bad("shift", "UNEXTRACTABLE: no shift by a constant in the decoder (the lui/auipc operand)", f["sp"])
+        return
+    for n_, sh in enumerate(shifts):
+        amount = lit_value(sh["b"]) if sh.get("k") == "Binary" else lit_value(sh["args"][0])
+        operand = ekey(sh["a"] if sh.get("k") == "Binary" else sh["recv"])
+        bits = 32 - amount
+        # the enclosing block: an earlier statement must reject operands outside a range that fits `bits`
+        blk = pm.get(id(sh))
+        st = sh
+        while blk is not None and blk.get("k") != "Block":
+            st = blk
+            blk = pm.get(id(blk))
+        # climb to the statement of the block that contains the shift
+        guard = None
+        if blk is not None:
+            idx = None
+            for i, s_ in enumerate(blk.get("stmts", [])):
+                if any(y is sh for y in walk(s_, pats=False)):
+                    idx = i
+            stmts = blk.get("stmts", [])[:idx] if idx is not None else blk.get("stmts", [])
+            for s_ in stmts:
+                e = peel(s_.get("e") or {})
+                if e.get("k") != "If":
+                    continue
+                if not any(y.get("k") == "Ret" for y in walk(e["then"], pats=False)) or not any(c.get("k") == "Call" and short(callee_of(c) or "") == "Err" for c in walk(e["then"], pats=False)):
+                    continue
+                c = _strip(e["cond"])
+                if c.get("k") == "Unary" and c.get("op") == "Not":
+                    inner = _strip(c["a"])
+                    if inner.get("k") == "MethodCall" and inner["name"] == "contains" and ekey(inner["args"][0]).lstrip("&*") == operand.lstrip("&*"):
+                        r = _strip(inner["recv"])
+                        lo = hi = None
+                        if r.get("k") == "Call" and len(r["args"]) == 2 and (callee_of(r) or declared_callee(r) or "").endswith("::new"):
+                            lo, hi = lit_value(r["args"][0]), lit_value(r["args"][1])
+                        elif r.get("k") == "Struct":
+                            fs = {x["name"]: lit_value(x["e"]) for x in r["fields"]}
+                            lo, hi = fs.get("start"), (fs.get("end") - 1 if isinstance(fs.get("end"), int) else None)
+                        if isinstance(lo, int) and isinstance(hi, int):
+                            guard = (lo, hi, e)
+        key = f"shift#{n_ + 1}|by-{amount}"
+        if guard is None:
+            R.bad(key, f"`{operand} << {amount}` is not preceded by a test that rejects operands outside {bits} bits: a wider literal is silently cut off (`lui a0, 0x100000` reads as 0, `lui a0, 0xFFFFFFFF` as -4096)", loc(sh))
+        else:
+            lo, hi, e = guard
+            if lo >= -(1 << (bits - 1)) and hi <= (1 << bits) - 1:
+                R.ok(key, detail=f"operand tested against {lo}..={hi} (fits {bits} bits) before the shift", where=loc(e))
+            else:
+                R.bad(key, f"the operand is tested against {lo}..={hi}, which does not fit the {bits} bits that survive `<< {amount}`", loc(e))
